@@ -1780,6 +1780,14 @@ func (c *Ctx) ruleIDSourcesVerbatim(rule string) {
 					}
 				}
 				return "the result of " + exprString(x.Fun)
+			case *ast.IndexExpr:
+				// the parameter map read directly: d.namedParameters["K"]
+				if _, isMap := pk.TypesInfo.TypeOf(x.X).Underlying().(*types.Map); isMap && fieldSel(pk, x.X) != nil {
+					if _, isK := constString(pk, x.Index); isK {
+						return ""
+					}
+				}
+				return "the value of " + exprString(x)
 			case *ast.Ident:
 				if depth > 3 {
 					return "a chain of locals"
